@@ -59,6 +59,75 @@ static void make_compressor_frame(const Plan* p, Sess* s, Frame* fr) {
     if (s->dict) { fr->dict = s->dict; fr->dict_size = s->dict_size; }
     ZSTD_freeCCtx(c);
 }
+/* ---- a forged peer: frames assembled bit by bit, not by the compressor.  One to three blocks; each a compressed block with
+ * a Raw / RLE literals section of a chosen size (biased beyond 64 KiB, where the decoder splits its literal buffer, and to the
+ * block maximum) and 0-6 sequences written with all three symbol tables in RLE mode, so that a sequence is nothing but its
+ * extra bits.  Lengths are random, extreme, or aimed: "this sequence ends d bytes before / after the announced content size".
+ * The header announces the real regenerated size, a lie, or nothing (window descriptor instead). ---- */
+typedef struct { uint8_t* p; size_t pos; uint64_t acc; unsigned nb; } BitW;
+static void bw_add(BitW* b, uint64_t v, unsigned n) { while (n > 24) { bw_add(b, v & 0xFFFFFF, 24); v >>= 24; n -= 24; } b->acc |= (v & ((1ull << n) - 1)) << b->nb; b->nb += n; while (b->nb >= 8) { b->p[b->pos++] = (uint8_t)b->acc; b->acc >>= 8; b->nb -= 8; } }
+static const uint32_t k_llb[36] = { 0,1,2,3,4,5,6,7,8,9,10,11,12,13,14,15,16,18,20,22,24,28,32,40,48,64,128,256,512,1024,2048,4096,8192,16384,32768,65536 };
+static const uint8_t  k_lln[36] = { 0,0,0,0,0,0,0,0,0,0,0,0,0,0,0,0,1,1,1,1,2,2,3,3,4,6,7,8,9,10,11,12,13,14,15,16 };
+static const uint32_t k_mlb[53] = { 3,4,5,6,7,8,9,10,11,12,13,14,15,16,17,18,19,20,21,22,23,24,25,26,27,28,29,30,31,32,33,34,35,37,39,41,43,47,51,59,67,83,99,131,259,515,1027,2051,4099,8195,16387,32771,65539 };
+static const uint8_t  k_mln[53] = { 0,0,0,0,0,0,0,0,0,0,0,0,0,0,0,0,0,0,0,0,0,0,0,0,0,0,0,0,0,0,0,0,1,1,1,1,2,2,3,3,4,4,5,7,8,9,10,11,12,13,14,15,16 };
+static uint64_t aim(Rng* g, uint32_t base, unsigned nbits, long long want) {   /* extra bits so that base + extra is `want` when reachable, else clamp */
+    uint64_t const span = nbits ? (1ull << nbits) : 1; (void)g;
+    if (want < (long long)base) return 0; if ((uint64_t)(want - base) >= span) return span - 1; return (uint64_t)(want - base);
+}
+static void make_crafted_frame(const Plan* p, Sess* s, Frame* fr) {
+    Rng g; size_t n = 0, cap = 600u << 10; int nblocks, b, squeeze; uint8_t* f = (uint8_t*)malloc(cap); size_t total = 0, fcs_pos; int fcs_mode; size_t announced;
+    rng_seed(&g, (uint64_t)plan_get(p, "craft_seed", 1), "craft");
+    nblocks = rng_coin(&g, 2, 3) ? 1 : 1 + (int)rng_below(&g, 3); fcs_mode = (int)rng_below(&g, 6);   /* 0-2 true size, 3 lie (smaller), 4 lie (slightly larger), 5 no FCS: window descriptor */
+    announced = (size_t)plan_get(p, "craft_size", 100000); squeeze = (int)plan_get(p, "craft_squeeze", 0); if (squeeze && fcs_mode == 5) fcs_mode = 0;
+    f[n++] = 0x28; f[n++] = 0xB5; f[n++] = 0x2F; f[n++] = 0xFD;
+    if (fcs_mode == 5) { f[n++] = 0x00; f[n++] = (uint8_t)((rng_below(&g, 12) << 3) | rng_below(&g, 8)); fcs_pos = 0; } else { f[n++] = 0xA0; fcs_pos = n; n += 4; }
+    for (b = 0; b < nblocks; b++) {
+        size_t const bh = n, start = n + 3; size_t lit, litleft, produced = 0; int nseq, k, raw; unsigned llc, ofc, mlc; long long room = (long long)announced - (long long)total;
+        switch (rng_below(&g, 8)) { case 0: lit = (size_t)rng_below(&g, 300); break; case 1: lit = 65536 + (size_t)rng_below(&g, 3) - 1; break; case 2: lit = (128u << 10) - (size_t)rng_below(&g, 3); break; case 3: lit = (size_t)rng_below(&g, 128u << 10); break; default: lit = 65537 + (size_t)rng_below(&g, 65535); break; }
+        raw = rng_coin(&g, 1, 3) && lit < (100u << 10);
+        { uint32_t const h = (raw ? 0u : 1u) | (3u << 2) | ((uint32_t)lit << 4); f[n++] = (uint8_t)h; f[n++] = (uint8_t)(h >> 8); f[n++] = (uint8_t)(h >> 16); }
+        if (raw) { size_t i; for (i = 0; i < lit; i++) f[n++] = (uint8_t)(rng_u64(&g) >> 13); } else f[n++] = (uint8_t)('A' + b);
+        nseq = (int)rng_below(&g, 7);
+        if (b == 0 && squeeze) {   /* split-literal squeeze: the first sequence leaves less output room than literals still resident in the output buffer; the second crosses the split */
+            BitW w; unsigned const lc = 32 + (unsigned)rng_below(&g, 3), mc = 51 + (unsigned)rng_below(&g, 2), oc = 1 + (unsigned)rng_below(&g, 12); uint64_t x1 = rng_below(&g, 1u << k_lln[lc]), xm1 = rng_below(&g, 1u << k_mln[mc]), x2, xm2 = rng_below(&g, 1u << k_mln[mc]); long long const l1 = (long long)k_llb[lc] + (long long)x1, m1 = (long long)k_mlb[mc] + (long long)xm1, d = (long long)rng_below(&g, 700) - 3; long long resid;
+            n = start; lit = 65536 + (size_t)l1 + 1 + (size_t)rng_below(&g, 4000); if (lit > (128u << 10)) lit = 128u << 10; resid = (long long)lit - 65536 - l1;
+            x2 = rng_coin(&g, 1, 2) ? aim(&g, k_llb[lc], k_lln[lc], (long long)lit - l1) : rng_below(&g, 1u << k_lln[lc]);
+            { uint32_t const h = 1u | (3u << 2) | ((uint32_t)lit << 4); f[n++] = (uint8_t)h; f[n++] = (uint8_t)(h >> 8); f[n++] = (uint8_t)(h >> 16); f[n++] = 'S'; }
+            f[n++] = 2; f[n++] = (1u << 6) | (1u << 4) | (1u << 2); f[n++] = (uint8_t)lc; f[n++] = (uint8_t)oc; f[n++] = (uint8_t)mc;
+            w.p = f; w.pos = n; w.acc = 0; w.nb = 0; bw_add(&w, x2, k_lln[lc]); bw_add(&w, xm2, k_mln[mc]); bw_add(&w, rng_u64(&g) & ((1ull << oc) - 1), oc); bw_add(&w, x1, k_lln[lc]); bw_add(&w, xm1, k_mln[mc]); bw_add(&w, 0, oc); bw_add(&w, 1, 1); if (w.nb) w.p[w.pos++] = (uint8_t)w.acc; n = w.pos;
+            announced = (size_t)(l1 + m1 + d); (void)resid; produced = (size_t)(l1 + m1) + (size_t)k_llb[lc] + (size_t)x2 + (size_t)k_mlb[mc] + (size_t)xm2; sim_probe("c03.crafted_split_squeeze");
+        } else {
+        f[n++] = (uint8_t)nseq;
+        if (nseq) { BitW w; long long ll[8], ml[8]; uint64_t xl[8], xm[8], xo[8];
+            llc = rng_coin(&g, 1, 2) ? 33 + (unsigned)rng_below(&g, 3) : (unsigned)rng_below(&g, 36); mlc = rng_coin(&g, 1, 2) ? 50 + (unsigned)rng_below(&g, 3) : (unsigned)rng_below(&g, 53); ofc = rng_coin(&g, 1, 8) ? (unsigned)rng_below(&g, 32) : (unsigned)rng_below(&g, 18);
+            f[n++] = (1u << 6) | (1u << 4) | (1u << 2); f[n++] = (uint8_t)llc; f[n++] = (uint8_t)ofc; f[n++] = (uint8_t)mlc;
+            litleft = lit;
+            for (k = 0; k < nseq; k++) {
+                long long wl, wm; int const m = (int)rng_below(&g, 6);
+                /* literal length: random / all that is left / what is left minus a few */
+                wl = m == 0 ? (long long)litleft : m == 1 ? (long long)litleft - (long long)rng_below(&g, 2000) : (long long)k_llb[llc] + (long long)rng_below(&g, 1u << (k_lln[llc] > 20 ? 20 : k_lln[llc]));
+                xl[k] = aim(&g, k_llb[llc], k_lln[llc], wl); ll[k] = (long long)k_llb[llc] + (long long)xl[k];
+                /* match length: random / so that the output ends d bytes before or after the room announced */
+                { long long const after_lit = (long long)produced + ll[k]; int const mm = (int)rng_below(&g, 5); long long const d = (long long)rng_below(&g, 3) == 0 ? 0 : (long long)rng_below(&g, 600) - 100;
+                  wm = mm < 2 ? room - after_lit - d : (long long)k_mlb[mlc] + (long long)rng_below(&g, 1u << (k_mln[mlc] > 20 ? 20 : k_mln[mlc])); }
+                xm[k] = aim(&g, k_mlb[mlc], k_mln[mlc], wm); ml[k] = (long long)k_mlb[mlc] + (long long)xm[k];
+                xo[k] = ofc ? rng_u64(&g) & ((1ull << ofc) - 1) : 0; if (rng_coin(&g, 1, 3)) xo[k] = 0;
+                produced += (size_t)(ll[k] + ml[k]); litleft = (long long)litleft > ll[k] ? litleft - (size_t)ll[k] : 0;
+            }
+            w.p = f; w.pos = n; w.acc = 0; w.nb = 0;
+            for (k = nseq - 1; k >= 0; k--) { bw_add(&w, xl[k], k_lln[llc]); bw_add(&w, xm[k], k_mln[mlc]); bw_add(&w, xo[k], ofc); }
+            bw_add(&w, 1, 1); if (w.nb) { w.p[w.pos++] = (uint8_t)w.acc; } n = w.pos;
+            produced += litleft;
+        } else produced = lit;
+        }
+        total += produced;
+        { uint32_t const csz = (uint32_t)(n - start), h = (b + 1 == nblocks ? 1u : 0u) | (2u << 1) | (csz << 3); f[bh] = (uint8_t)h; f[bh + 1] = (uint8_t)(h >> 8); f[bh + 2] = (uint8_t)(h >> 16); }
+        if (n + (140u << 10) > cap) { nblocks = b + 1; f[bh] |= 1; }
+    }
+    if (fcs_pos) { uint32_t v = fcs_mode <= 2 ? (uint32_t)(announced) : fcs_mode == 3 ? (uint32_t)(announced / 2) : (uint32_t)(announced + rng_below(&g, 400)); if (rng_coin(&g, 1, 4)) v = (uint32_t)total; f[fcs_pos] = (uint8_t)v; f[fcs_pos + 1] = (uint8_t)(v >> 8); f[fcs_pos + 2] = (uint8_t)(v >> 16); f[fcs_pos + 3] = (uint8_t)(v >> 24); s->in_size = v; }
+    else s->in_size = announced;
+    fr->f = f; fr->n = n; sim_probe("c03.crafted_frames");
+}
 /* ---- wire faults (explicit ops "flt kind a b") ---- */
 static void apply_faults(const Plan* p, Frame* fr) {
     int i; size_t hdr = 18 < fr->n ? 18 : fr->n;
@@ -224,6 +293,12 @@ static void gen03(Plan* p, Rng* r, int tier, long idx) {
     plan_set(p, "legacy_idx", (int64_t)rng_below(r, 3)); plan_set(p, "coin_mode", (int64_t)rng_below(r, 60));
     plan_set(p, "cap_mode", (int64_t)rng_below(r, 4)); plan_set(p, "garbage_size", (int64_t)rng_size(r, 3000)); plan_set(p, "garbage_seed", (int64_t)(rng_u64(r) >> 2));
     sess_gen_dhist(p, r);
+    if (idx % 16 == 3) {   /* forged frames: mostly as they are, some with a wire fault on top */
+        plan_set(p, "src_kind", 5); plan_set(p, "craft_seed", (int64_t)(rng_u64(r) >> 2)); plan_set(p, "craft_size", rng_coin(r, 1, 2) ? 66000 + (int64_t)rng_below(r, 200000) : (int64_t)rng_below(r, 400000));
+        plan_set(p, "craft_squeeze", rng_coin(r, 2, 5)); plan_set(p, "dict_kind", 0); plan_set(p, "cap_mode", rng_coin(r, 3, 4) ? 0 : (int64_t)rng_below(r, 4));
+        if (rng_coin(r, 1, 4)) gen_faults(p, r, 1);
+        return;
+    }
     gen_faults(p, r, 1 + (int)rng_below(r, 4));
 }
 static void exec03(const Plan* p) {
@@ -233,6 +308,7 @@ static void exec03(const Plan* p) {
         if (n >= 4 && rng_coin(&g, 2, 3)) { fr.f[0] = 0x28; fr.f[1] = 0xB5; fr.f[2] = 0x2F; fr.f[3] = 0xFD; } s.in_size = n * 4; }
     else if (kind == 1) { if (load_corpus_frame(p, &fr) != 0) { make_compressor_frame(p, &s, &fr); } else s.in_size = 1 << 20; }
     else if (kind == 2) { if (load_legacy_frame(p, &fr) != 0) make_compressor_frame(p, &s, &fr); else s.in_size = 4096; }
+    else if (kind == 5) make_crafted_frame(p, &s, &fr);
     else make_compressor_frame(p, &s, &fr);
     orig = s.in_size;
     apply_faults(p, &fr);
@@ -241,7 +317,7 @@ static void exec03(const Plan* p) {
         if (df == 1) d2[(size_t)plan_get(p, "corpus_idx", 0) % fr.dict_size] ^= 0x40; else if (df == 2) fr.dict_size = fr.dict_size / 2 + 1; else memset(d2 + fr.dict_size / 3, 0x5A, fr.dict_size / 3);
         fr.dict = d2; sim_fault_fired("dict_store_fault");
     }
-    switch ((int)plan_get(p, "cap_mode", 0)) { case 0: cap = orig + 64; break; case 1: cap = orig / 2; break; case 2: cap = (size_t)plan_get(p, "garbage_size", 0) % 64; break; default: cap = orig * 2 + 1024; break; }
+    switch ((int)plan_get(p, "cap_mode", 0)) { case 0: cap = orig + (kind == 5 ? 0 : 64); break; case 1: cap = orig / 2; break; case 2: cap = (size_t)plan_get(p, "garbage_size", 0) % 64; break; default: cap = orig * 2 + 1024; break; }
     if (cap > (8u << 20)) cap = 8u << 20;
     for (v = 0; v < V_COUNT; v++) {
         VRes res;
